@@ -59,6 +59,13 @@ func init() {
 }
 
 func runC09(r *Run) {
+	// (0) the generated receive acknowledges what the verifier demands of an auto-generated block
+	sbm := "vm.(*Supervisor).setBlockMomentum"
+	r.Alias("$fst", "recv.chain.GetFrontierMomentumStore()")
+	r.StoreContext(sbm, "store a0.MomentumAcknowledged = $fst.GetMomentumByHeight($fst.GetBlockConfirmationHeight(a0.FromBlockHash)#0)#0.Identifier()", "T(a0.MomentumAcknowledged.IsZero()) & T(types.IsEmbeddedAddress(a0.Address))",
+		"a contract-receive acknowledges exactly the momentum that confirmed its send (the verifier refuses any other: ErrABMAInvalidForAutoGenerated) — acknowledging the frontier makes every call whose receive is produced one momentum later unprocessable for ever, wedging the contract's inbox")
+	r.StoreContext(sbm, "store a0.MomentumAcknowledged = $fst.GetFrontierMomentum()#0.Identifier()", "F(types.IsEmbeddedAddress(a0.Address)) & T(a0.MomentumAcknowledged.IsZero())", "only user blocks default to the frontier")
+	r.Guards([]row{{F: "verifier.(*accountBlockVerifier).momentumAcknowledged", C: "ne(recv.block.MomentumAcknowledged.Height,recv.momentumStore.GetBlockConfirmationHeight(recv.block.FromBlockHash)#0) @ F(verifier.isBatched(recv.block)) & T(verifier.isContractReceive(recv.block))", Why: "verifier side of the same agreement"}})
 	// (1) receive re-validates — exhaustive
 	why1 := "receive-time execution re-runs the send-time validation (which also canonicalises the data it then unpacks); a method that skips it executes unchecked arguments"
 	impls := r.methodImpls("vm/embedded", "Method", "ReceiveBlock")
